@@ -98,8 +98,45 @@ def MacIn(self, p=3, q=4):
     return self.a, self.b
 
 
+# labels that look like pieces of scoped keys (`{node}__{channel}`): delimiter inside, prefixes of each other
+@as_function_node("o", validate_output_labels=False)
+def Kbc(x="dx", b__c="d1"):
+    return ("Kbc", x, b__c)
+
+
+@as_function_node("o", validate_output_labels=False)
+def Kc(c="d2", d="d3"):
+    return ("Kc", c, d)
+
+
+@as_function_node("o", "b__o", validate_output_labels=False)
+def Kxo(x="dx", x__y="d4"):
+    return ("Kxo", x, x__y), ("Kxo2", x)
+
+
+@as_function_node("o", validate_output_labels=False)
+def Kx(x="dx"):
+    return ("Kx", x)
+
+
+# a value-link chain whose end is stricter than its start: MacChain.q -> inner.b -> inner/scale.y (int)
+@as_macro_node("r0", validate_output_labels=False)
+def MacChainIn(self, y=1, b=2):
+    self.scale = Ixy(x=y, y=b)
+    return self.scale
+
+
+@as_macro_node("r0", "r1", validate_output_labels=False)
+def MacChain(self, p=3, q=4):
+    self.first = Pxy(x=p)
+    self.inner = MacChainIn(y=5, b=q)
+    return self.first, self.inner
+
+
 CLASSES = {
-    c.__name__: c for c in (Pxy, Qxy, Px, Pxyz, PxyP, PxyOP, Ixy, Sxy, IxyS, SxIy, Ux, Mpq, MacIn)
+    c.__name__: c
+    for c in (Pxy, Qxy, Px, Pxyz, PxyP, PxyOP, Ixy, Sxy, IxyS, SxIy, Ux, Mpq, MacIn, Kbc, Kc, Kxo, Kx, MacChain,
+              MacChainIn)
 }
 
 # label of the channels per class (inputs, outputs) and their hints -- used by the generator only
